@@ -566,7 +566,12 @@ def regalloc_scenarios(seed, n, start_id=1):
         for _ in range(rng.choice([1, 2, 3])):
             chunks.append(temp_stmt(rng, rng.choice([1, 2, 2, 3])))
         if "anti" in cfg and rng.random() < 0.7:
-            chunks.append([call(99, [])])
+            # the scratch-forbidding instruction, in its plain spelling or as a raw blob
+            if rng.random() < 0.5:
+                chunks.append([call(99, [])])
+            else:
+                chunks.append([{"k": "expr", "e": {"k": "call", "name": {"ins": 99}, "args": [],
+                                                  "pseudos": [{"kind": "blob", "v": {"k": "str", "v": ""}}]}}])
         rng.shuffle(chunks)
         for c in chunks:
             body.extend(c)
